@@ -57,7 +57,8 @@ Exec(c, s) ==
                   \cup {<<"foreign_value", p>> : p \in {q \in Untracked : tru[s][q] # Default /\ ~dirty[s]}}
   /\ UNCHANGED <<want, bel, tru, holder, dirty>>
 
-\* the client SETs a parameter itself; the server reports tracked ones
+\* the client SETs a parameter itself; the server reports tracked ones.  (The SET may also travel as a later statement of a
+\* multi-statement simple query, e.g. behind a COPY .. TO STDOUT whose data comes first: same effect, other reply shape.)
 ClientSet(c, s, p, v) ==
   /\ holder[s] = c /\ nops < MaxOps /\ nops' = nops + 1 /\ p \in Params /\ v \in Values
   /\ tru' = [tru EXCEPT ![s][p] = v]
